@@ -90,13 +90,25 @@ pub proof fn lemma_norm_flat(ls: Seq<Seq<char>>, k: int)
     }
 }
 
-/// What N1 returns, as a function of the comment text `t`, the offset `o` of the first "/*" and the
-/// offset `c` of the last "*/": text before "/*", two spaces, the content with every line
-/// normalised, two spaces, text after "*/".
+/// What N1 returns when both delimiters are there (first "/*" at `o`, last "*/" at `c`, `o + 2 <= c`):
+/// text before "/*", two spaces, the content with every line normalised, two spaces, text after "*/".
 pub open spec fn n1_result(t: Seq<char>, o: int, c: int) -> Seq<u8> {
     let b = utf8(t);
     let lines = split_inclusive_spec(decode_utf8(b.subrange(o + 2, c)), '\n');
     b.subrange(0, o) + sp(2) + norm_flat(lines, lines.len() as int) + sp(2) + b.subrange(c + 2, b.len() as int)
+}
+
+/// ... and when there is no closing delimiter after the opening one (unterminated comment, or `/*/`):
+/// the content runs to the end of the text and nothing is blanked at the end.
+pub open spec fn n1_result_unterminated(t: Seq<char>, o: int) -> Seq<u8> {
+    let b = utf8(t);
+    let lines = split_inclusive_spec(decode_utf8(b.subrange(o + 2, b.len() as int)), '\n');
+    b.subrange(0, o) + sp(2) + norm_flat(lines, lines.len() as int)
+}
+
+/// no "*/" at or after `o + 2` (the last "*/", if any, overlaps the opening delimiter or precedes it)
+pub open spec fn no_close_after(b: Seq<u8>, o: int) -> bool {
+    forall|c: int| #[trigger] last_occ(b, c, b_close()) ==> c < o + 2
 }
 
 /// The property-level fact (T-ext): same length, newlines in place, only delimiters and `*` touched.
@@ -108,21 +120,38 @@ pub open spec fn n1_frame(inp: Seq<u8>, out: Seq<u8>, o: int, c: int) -> bool {
     &&& out[o] == 0x20u8 && out[o + 1] == 0x20u8 && out[c] == 0x20u8 && out[c + 1] == 0x20u8
 }
 
+/// same for an unterminated comment: only the opening delimiter and `*` after it are touched
+pub open spec fn n1_frame_unterminated(inp: Seq<u8>, out: Seq<u8>, o: int) -> bool {
+    &&& out.len() == inp.len()
+    &&& forall|i: int| 0 <= i < inp.len() && i != o && i != o + 1 ==>
+            #[trigger] out[i] == inp[i] || (o + 2 <= i && inp[i] == 0x2au8 && out[i] == 0x20u8)
+    &&& out[o] == 0x20u8 && out[o + 1] == 0x20u8
+}
+
+/// `Option::filter` — std doc: "Returns None if the option is None, otherwise calls predicate with the
+/// wrapped value and returns Some(t) if predicate returns true, None if predicate returns false."
+pub assume_specification<T, P: FnOnce(&T) -> bool>[ Option::<T>::filter ](o: Option<T>, p: P) -> (r: Option<T>)
+    requires o matches Some(x) ==> call_requires(p, (&x,)),
+    ensures
+        o is None ==> r is None,
+        o matches Some(x) ==> (exists|b: bool| #[trigger] call_ensures(p, (&x,), b) && r == (if b { Some(x) } else { None::<T> }));
+
+// N1 has NO precondition on the comment text (C04: for ANY text it terminates without panic).
 //@unit id=N1 file=src/language_parsers/mod.rs fn=c_style_multiline_comment_processor ret=r
 //@contract
-    requires
-        exists|q: int| #[trigger] occurs_at(utf8(comment@), q, b_open()), // [N1.pre.has_open_delimiter]
-        exists|q: int| #[trigger] occurs_at(utf8(comment@), q, b_close()), // [N1.pre.has_close_delimiter]
-        forall|o: int, c: int| #![trigger first_occ(utf8(comment@), o, b_open()), last_occ(utf8(comment@), c, b_close())] // [N1.pre.delimiters_do_not_overlap]
-            first_occ(utf8(comment@), o, b_open()) && last_occ(utf8(comment@), c, b_close()) ==> o + 2 <= c,
     ensures
         utf8(r@).len() == utf8(comment@).len(), // [N1.post.same_byte_length]
         forall|i: int| 0 <= i < utf8(comment@).len() ==> (#[trigger] utf8(r@)[i] == 0x0au8) == (utf8(comment@)[i] == 0x0au8), // [N1.post.newlines_stay_in_place]
+        (forall|q: int| !#[trigger] occurs_at(utf8(comment@), q, b_open())) ==> utf8(r@) == utf8(comment@), // [N1.post.no_open_delimiter_text_unchanged]
         forall|o: int, c: int| #![trigger first_occ(utf8(comment@), o, b_open()), last_occ(utf8(comment@), c, b_close())] // [N1.post.unchanged_outside_delimiters_and_stars]
-            first_occ(utf8(comment@), o, b_open()) && last_occ(utf8(comment@), c, b_close()) ==> n1_frame(utf8(comment@), utf8(r@), o, c),
+            first_occ(utf8(comment@), o, b_open()) && last_occ(utf8(comment@), c, b_close()) && o + 2 <= c ==> n1_frame(utf8(comment@), utf8(r@), o, c),
+        forall|o: int| #![trigger first_occ(utf8(comment@), o, b_open())] // [N1.post.unterminated_only_open_delimiter_and_stars]
+            first_occ(utf8(comment@), o, b_open()) && no_close_after(utf8(comment@), o) ==> n1_frame_unterminated(utf8(comment@), utf8(r@), o),
         forall|o: int, c: int| #![trigger first_occ(utf8(comment@), o, b_open()), last_occ(utf8(comment@), c, b_close())] // [N1.post.decorative_star_rule]
-            first_occ(utf8(comment@), o, b_open()) && last_occ(utf8(comment@), c, b_close()) ==> utf8(r@) == n1_result(comment@, o, c),
-//@edit rule=ghost before=<<let open_idx>>
+            first_occ(utf8(comment@), o, b_open()) && last_occ(utf8(comment@), c, b_close()) && o + 2 <= c ==> utf8(r@) == n1_result(comment@, o, c),
+        forall|o: int| #![trigger first_occ(utf8(comment@), o, b_open())] // [N1.post.decorative_star_rule_unterminated]
+            first_occ(utf8(comment@), o, b_open()) && no_close_after(utf8(comment@), o) ==> utf8(r@) == n1_result_unterminated(comment@, o),
+//@edit rule=ghost before=<<let mut result>>
     proof {
         reveal_strlit("/*");
         reveal_strlit("*/");
@@ -136,22 +165,29 @@ pub open spec fn n1_frame(inp: Seq<u8>, out: Seq<u8>, o: int, c: int) -> bool {
         assert(utf8("  "@) =~= sp(2));
     }
     let ghost bc = utf8(comment@);
-//@edit rule=ghost before=<<result.push_str(&comment[..open_idx]);>>
+//@closure rule=E12 find=<<|close_idx|>> params=<<|close_idx: &usize|>> ret=<<b: bool>> optional=1
+            ensures b == (*close_idx >= open_idx + 2), // [N1.closure.close_after_open]
+//@edit rule=ghost before=<<result.push_str(&comment[..>>
     proof {
         // both delimiters are ASCII: their offsets and the offsets after them are char boundaries
         assert(first_occ(bc, open_idx as int, b_open())); // [N1.proof.open_idx_is_first_open_delimiter]
-        assert(last_occ(bc, close_idx as int, b_close())); // [N1.proof.close_idx_is_last_close_delimiter]
         assert(bc.subrange(open_idx as int, open_idx + 2)[0] == 0x2fu8 && bc.subrange(open_idx as int, open_idx + 2)[1] == 0x2au8);
-        assert(bc.subrange(close_idx as int, close_idx + 2)[0] == 0x2au8 && bc.subrange(close_idx as int, close_idx + 2)[1] == 0x2fu8);
         lemma_after_ascii_is_boundary(comment@, open_idx as int + 1);
-        lemma_after_ascii_is_boundary(comment@, close_idx as int + 1);
+        if let Some(c) = close_idx {
+            assert(last_occ(bc, c as int, b_close()) && open_idx + 2 <= c); // [N1.proof.close_idx_is_last_close_delimiter]
+            assert(bc.subrange(c as int, c + 2)[0] == 0x2au8 && bc.subrange(c as int, c + 2)[1] == 0x2fu8);
+            lemma_after_ascii_is_boundary(comment@, c as int + 1);
+        } else {
+            assert(no_close_after(bc, open_idx as int)); // [N1.proof.no_close_delimiter_after_open]
+        }
     }
+    let ghost end = match close_idx { Some(c) => c as int, None => bc.len() as int };
 //@edit rule=E15 find=<<for $a in $b.split_inclusive('\n')>>
     let verif_pieces = verif_split_inclusive_char($b, '\n');
     let ghost lines = views_of(verif_pieces@);
     proof {
         encode_utf8_decode_utf8($b@);
-        assert(lines == split_inclusive_spec(decode_utf8(bc.subrange(open_idx + 2, close_idx as int)), '\n')); // [N1.proof.content_is_between_the_delimiters]
+        assert(lines == split_inclusive_spec(decode_utf8(bc.subrange(open_idx + 2, end)), '\n')); // [N1.proof.content_is_between_the_delimiters]
     }
     for $a in it: verif_pieces
         invariant
@@ -159,7 +195,6 @@ pub open spec fn n1_frame(inp: Seq<u8>, out: Seq<u8>, o: int, c: int) -> bool {
             it.seq() == verif_pieces@,
             lines == views_of(verif_pieces@),
 //@edit rule=ghost after=<<let mut decorative_star_found = false;>>
-        let ghost r0 = utf8(result@);
         let ghost bl = utf8(line@);
         proof {
             assert(lines[it.index@ as int] == line@);
@@ -176,32 +211,56 @@ pub open spec fn n1_frame(inp: Seq<u8>, out: Seq<u8>, o: int, c: int) -> bool {
 //@edit rule=ghost before=<<result }>>
     proof {
         let o = open_idx as int;
-        let c = close_idx as int;
         let n = lines.len() as int;
         let out = utf8(result@);
         lemma_norm_flat(lines, n);
         let mid = norm_flat(lines, n);
-        assert(flat_bytes(lines, n) == bc.subrange(o + 2, c)); // [N1.proof.lines_are_the_content_between_the_delimiters]
-        assert(out == bc.subrange(0, o) + sp(2) + mid + sp(2) + bc.subrange(c + 2, bc.len() as int)); // [N1.proof.result_is_text_with_delimiters_blanked]
-        assert(out == n1_result(comment@, o, c));
-        assert(out.len() == bc.len());
-        assert forall|i: int| 0 <= i < bc.len() && i != o && i != o + 1 && i != c && i != c + 1 implies
-            #[trigger] out[i] == bc[i] || (o + 2 <= i < c && bc[i] == 0x2au8 && out[i] == 0x20u8) by {
-            if o + 2 <= i < c {
-                assert(out[i] == mid[i - (o + 2)]);
-                assert(bc.subrange(o + 2, c)[i - (o + 2)] == bc[i]);
-            }
-        }
+        assert(flat_bytes(lines, n) == bc.subrange(o + 2, end)); // [N1.proof.lines_are_the_content_between_the_delimiters]
         assert(bc.subrange(o, o + 2)[0] == bc[o] && bc.subrange(o, o + 2)[1] == bc[o + 1]);
-        assert(bc.subrange(c, c + 2)[0] == bc[c] && bc.subrange(c, c + 2)[1] == bc[c + 1]);
-        assert(n1_frame(bc, out, o, c));
-        // the first "/*" and the last "*/" are unique
-        assert forall|o2: int, c2: int| #![trigger first_occ(bc, o2, b_open()), last_occ(bc, c2, b_close())]
-            first_occ(bc, o2, b_open()) && last_occ(bc, c2, b_close()) implies o2 == o && c2 == c by {
+        // the first "/*" is unique
+        assert forall|o2: int| #![trigger first_occ(bc, o2, b_open())] first_occ(bc, o2, b_open()) implies o2 == o by {
             if o2 < o { assert(occurs_at(bc, o2, b_open())); }
             if o < o2 { assert(occurs_at(bc, o, b_open())); }
-            if c2 < c { assert(occurs_at(bc, c, b_close())); }
-            if c < c2 { assert(occurs_at(bc, c2, b_close())); }
+        }
+        assert(occurs_at(bc, o, b_open()));
+        match close_idx {
+            Some(cu) => {
+                let c = cu as int;
+                assert(out == bc.subrange(0, o) + sp(2) + mid + sp(2) + bc.subrange(c + 2, bc.len() as int)); // [N1.proof.result_is_text_with_delimiters_blanked]
+                assert(out == n1_result(comment@, o, c));
+                assert(out.len() == bc.len());
+                assert forall|i: int| 0 <= i < bc.len() && i != o && i != o + 1 && i != c && i != c + 1 implies
+                    #[trigger] out[i] == bc[i] || (o + 2 <= i < c && bc[i] == 0x2au8 && out[i] == 0x20u8) by {
+                    if o + 2 <= i < c {
+                        assert(out[i] == mid[i - (o + 2)]);
+                        assert(bc.subrange(o + 2, c)[i - (o + 2)] == bc[i]);
+                    }
+                }
+                assert(bc.subrange(c, c + 2)[0] == bc[c] && bc.subrange(c, c + 2)[1] == bc[c + 1]);
+                assert(n1_frame(bc, out, o, c));
+                assert forall|c2: int| #[trigger] last_occ(bc, c2, b_close()) implies c2 == c by {
+                    if c2 < c { assert(occurs_at(bc, c, b_close())); }
+                    if c < c2 { assert(occurs_at(bc, c2, b_close())); }
+                }
+                assert(last_occ(bc, c, b_close()));
+            },
+            None => {
+                assert(out == bc.subrange(0, o) + sp(2) + mid); // [N1.proof.result_is_text_with_open_delimiter_blanked]
+                assert(out == n1_result_unterminated(comment@, o));
+                assert(out.len() == bc.len());
+                assert forall|i: int| 0 <= i < bc.len() && i != o && i != o + 1 implies
+                    #[trigger] out[i] == bc[i] || (o + 2 <= i && bc[i] == 0x2au8 && out[i] == 0x20u8) by {
+                    if o + 2 <= i {
+                        assert(out[i] == mid[i - (o + 2)]);
+                        assert(bc.subrange(o + 2, bc.len() as int)[i - (o + 2)] == bc[i]);
+                    }
+                }
+                assert(n1_frame_unterminated(bc, out, o));
+                assert forall|c2: int| #[trigger] last_occ(bc, c2, b_close()) implies c2 < o + 2 by {}
+                assert forall|i: int| 0 <= i < bc.len() implies (#[trigger] out[i] == 0x0au8) == (bc[i] == 0x0au8) by {
+                    if o + 2 <= i { assert(out[i] == bc[i] || (bc[i] == 0x2au8 && out[i] == 0x20u8)); }
+                }
+            },
         }
     }
 //@closure rule=E12 find=<<|c: char|>> params=<<|c: char|>> ret=<<b: bool>>
@@ -212,7 +271,6 @@ pub open spec fn n1_frame(inp: Seq<u8>, out: Seq<u8>, o: int, c: int) -> bool {
 //@strslice rule=E13 from=verif_str_from to=verif_str_to range=verif_str_range
 //@chain rule=E13 find=<<.starts_with(>> to=verif_starts_with_char argkind=char count=all
 //@end
-
 
 // ---------------------------------------------------------------------------------------------
 // N2..N5 — the closures of the four `*_comments_parser` functions. The closures themselves mention
@@ -322,8 +380,6 @@ proof fn lemma_has_first(b: Seq<u8>, pat: Seq<u8>, q: int)
 //@unit id=N2 file=src/language_parsers/mod.rs fn=c_style_comments_parser slice_from=<<if comment.starts_with(>> slice_until=<<) }), )>>
 //@wrapper
 fn n2_c_style_comment_text(comment: &str) -> (r: String)
-    requires
-        !occurs_at(utf8(comment@), 0, b_slashes()) ==> n1_pre(utf8(comment@)), // [N2.pre.block_comment_has_its_delimiters]
     ensures
         same_len_and_newlines(utf8(comment@), utf8(r@)), // [N2.post.same_length_and_newlines]
         occurs_at(utf8(comment@), 0, b_slashes()) ==> blanked_at(utf8(comment@), utf8(r@), 0, 2), // [N2.post.line_comment_marker_blanked]
